@@ -293,6 +293,7 @@ class PDFXRefStream(PDFBaseXRef):
             not isinstance(fields, list)
             or len(fields) != 3
             or not all(isinstance(x, int) and x >= 0 for x in fields)
+            or sum(fields) == 0
         ):
             raise PDFNoValidXRef("Invalid /W in cross-reference stream")
         self.ranges.extend(cast(Iterator[Tuple[int, int]], choplist(2, index_array)))
@@ -320,6 +321,10 @@ class PDFXRefStream(PDFBaseXRef):
                 assert self.data is not None
                 # entries of all /Index ranges are stored back to back
                 offset = self.entlen * (index + i)
+                if len(self.data) <= offset:
+                    # the stream holds no further entries, whatever /Index
+                    # or /Size announce
+                    break
                 ent = self.data[offset : offset + self.entlen]
                 f1 = nunpack(ent[: self.fl1], 1)
                 if f1 == 1 or f1 == 2:
